@@ -24,6 +24,79 @@ inline void walkFail(const WalkOpts& o, const std::string& m) {
   violate(o.cls, m);
 }
 
+// What MessagePack says about the bytes of a raw value: a complete bin 8/16/32 object, a complete
+// (fix)ext object, or neither. Decoded here independently of the library.
+struct RawShape {
+  bool isBin = false, isExt = false;
+  int8_t extType = 0;
+  std::string payload;
+};
+
+inline RawShape rawShape(const std::string& b) {
+  RawShape r;
+  if (b.empty())
+    return r;
+  unsigned char c = static_cast<unsigned char>(b[0]);
+  auto be = [&](size_t at, size_t n, uint64_t& out) {
+    if (at + n > b.size())
+      return false;
+    out = 0;
+    for (size_t j = 0; j < n; j++)
+      out = (out << 8) | static_cast<unsigned char>(b[at + j]);
+    return true;
+  };
+  uint64_t len = 0;
+  if (c >= 0xc4 && c <= 0xc6) {
+    size_t w = size_t(1) << (c - 0xc4);
+    if (be(1, w, len) && 1 + w + len == b.size()) {
+      r.isBin = true;
+      r.payload = b.substr(1 + w);
+    }
+  } else if (c >= 0xd4 && c <= 0xd8) {
+    len = uint64_t(1) << (c - 0xd4);
+    if (2 + len == b.size()) {
+      r.isExt = true;
+      r.extType = int8_t(b[1]);
+      r.payload = b.substr(2);
+    }
+  } else if (c >= 0xc7 && c <= 0xc9) {
+    size_t w = size_t(1) << (c - 0xc7);
+    if (be(1, w, len) && 1 + w + 1 + len == b.size()) {
+      r.isExt = true;
+      r.extType = int8_t(b[1 + w]);
+      r.payload = b.substr(2 + w);
+    }
+  }
+  return r;
+}
+
+// is<MsgPackBinary/Extension>() and as<>() of any value agree with the bytes it holds (every non-raw
+// value holds none)
+inline void checkBinExt(JsonVariantConst v, const std::string& rawBytes, const WalkOpts& o) {
+  RawShape want = rawShape(rawBytes);
+  bool isBin = v.is<ArduinoJson::MsgPackBinary>();
+  ArduinoJson::MsgPackBinary bin = v.as<ArduinoJson::MsgPackBinary>();
+  if (isBin != want.isBin)
+    walkFail(o, std::string("walk: is<MsgPackBinary>() is ") + (isBin ? "true" : "false") + " for " + quote(rawBytes.substr(0, 40)));
+  if (want.isBin) {
+    if (!bin.data() || bin.size() != want.payload.size() || memcmp(bin.data(), want.payload.data(), bin.size()) != 0)
+      walkFail(o, "walk: as<MsgPackBinary>() differs from the payload held");
+  } else if (bin.data() != nullptr || bin.size() != 0) {
+    walkFail(o, "walk: as<MsgPackBinary>() of a value that is not a bin object is not empty");
+  }
+  bool isExt = v.is<ArduinoJson::MsgPackExtension>();
+  ArduinoJson::MsgPackExtension ext = v.as<ArduinoJson::MsgPackExtension>();
+  if (isExt != want.isExt)
+    walkFail(o, std::string("walk: is<MsgPackExtension>() is ") + (isExt ? "true" : "false") + " for " + quote(rawBytes.substr(0, 40)));
+  if (want.isExt) {
+    if (!ext.data() || ext.size() != want.payload.size() || ext.type() != want.extType ||
+        memcmp(ext.data(), want.payload.data(), ext.size()) != 0)
+      walkFail(o, "walk: as<MsgPackExtension>() differs from the type/payload held");
+  } else if (ext.data() != nullptr || ext.size() != 0) {
+    walkFail(o, "walk: as<MsgPackExtension>() of a value that is not an ext object is not empty");
+  }
+}
+
 inline Val extract(JsonVariantConst v, const WalkOpts& o, size_t& budget, int depth = 0) {
   if (budget == 0)
     walkFail(o, "walk: more nodes than the budget allows (cycle?)");
@@ -54,6 +127,8 @@ inline Val extract(JsonVariantConst v, const WalkOpts& o, size_t& budget, int de
     walkFail(o, "walk: is<JsonString> != is<const char*>");
   if (v.is<float>() != isFlt)
     walkFail(o, "walk: is<float> != is<double>");
+  if (!isRaw)
+    checkBinExt(v, std::string(), o);
 
   if (isNull) {
     if (v.size() != 0 || v.nesting() != 0)
@@ -98,6 +173,7 @@ inline Val extract(JsonVariantConst v, const WalkOpts& o, size_t& budget, int de
     // the only way to see a raw value is to serialize it; compact JSON writes it verbatim
     std::string out;
     serializeJson(v, out);
+    checkBinExt(v, out, o);
     return Val::raw(out);
   }
   if (isArr) {
@@ -124,8 +200,22 @@ inline Val extract(JsonVariantConst v, const WalkOpts& o, size_t& budget, int de
       if (!a[n].isNull() || !v[n].isNull())
         walkFail(o, "walk: a[size] is not null");
     }
-    if (v.nesting() != r.nesting())
+    if (v.nesting() != r.nesting() || a.nesting() != r.nesting())
       walkFail(o, "walk: nesting() " + std::to_string(v.nesting()) + " != " + std::to_string(r.nesting()));
+    if (a.isNull() || !a)
+      walkFail(o, "walk: JsonArrayConst of an array is null");
+    {
+      // iterators: operator->, ==, and the end reached after size() steps
+      size_t k = 0;
+      auto it = a.begin();
+      for (; it != a.end() && k <= n; ++it, ++k)
+        if (k < n && (it->isNull() != (r.a[k].k == K::Null) || it->size() != r.a[k].size() || !(it == it)))
+          walkFail(o, "walk: array iterator-> disagrees with iteration at " + std::to_string(k));
+      if (k != n || !(it == a.end()))
+        walkFail(o, "walk: array iterator does not reach end() after size() steps");
+    }
+    if (!v.as<JsonObjectConst>().isNull() || v.as<JsonObjectConst>().size() != 0)
+      walkFail(o, "walk: an array converts to a non-null JsonObjectConst");
     return r;
   }
   // object
@@ -159,8 +249,41 @@ inline Val extract(JsonVariantConst v, const WalkOpts& o, size_t& budget, int de
         walkFail(o, "walk: obj[" + quote(key) + "] differs from iteration");
     }
   }
-  if (v.nesting() != r.nesting())
+  if (v.nesting() != r.nesting() || ob.nesting() != r.nesting())
     walkFail(o, "walk: nesting() " + std::to_string(v.nesting()) + " != " + std::to_string(r.nesting()));
+  if (ob.isNull() || !ob)
+    walkFail(o, "walk: JsonObjectConst of an object is null");
+  {
+    size_t k = 0;
+    auto it = ob.begin();
+    for (; it != ob.end() && k <= n; ++it, ++k) {
+      if (k >= n)
+        break;
+      JsonString key = it->key();
+      if (std::string(key.c_str(), key.size()) != r.o[k].first || it->value().isNull() != (r.o[k].second.k == K::Null) ||
+          !(it == it))
+        walkFail(o, "walk: object iterator-> disagrees with iteration at " + std::to_string(k));
+    }
+    if (k != n || !(it == ob.end()))
+      walkFail(o, "walk: object iterator does not reach end() after size() steps");
+  }
+  if (!v.as<JsonArrayConst>().isNull() || v.as<JsonArrayConst>().size() != 0)
+    walkFail(o, "walk: an object converts to a non-null JsonArrayConst");
+  if (o.lookups && n > 0 && n <= 64) {
+    // the same lookup through the other kinds of key: const char* and std::string (when the key has no NUL),
+    // and v[key] on the variant itself
+    const std::string& key = r.o[0].first;
+    if (key.find('\0') == std::string::npos) {
+      int first = r.memberIndex(key);
+      const Val& want = r.o[size_t(first)].second;
+      JsonVariantConst viaC = ob[key.c_str()], viaS = ob[key], viaV = v[key.c_str()], viaVS = v[key];
+      for (JsonVariantConst got : {viaC, viaS, viaV, viaVS})
+        if (got.isNull() != (want.k == K::Null) || got.size() != want.size() || got.is<const char*>() != (want.k == K::Str))
+          walkFail(o, "walk: obj[" + quote(key) + "] through a const char* / std::string key differs from iteration");
+    }
+    if (!ob["\x01no such key\x02"].isNull() || !v["\x01no such key\x02"].isNull())
+      walkFail(o, "walk: lookup of an absent key is not null");
+  }
   return r;
 }
 
